@@ -38,6 +38,12 @@ CLAIMED = {
         text="Theorems: for-loop ranges are the inclusive arithmetic progression for either step sign, in order; leaving a block restores the scope/context stacks exactly; a declaration inside a block dies with it and leaves enclosing scopes untouched; the shadowing declaration is what is read inside; a block reads enclosing variables; a subroutine body cannot see the caller's non-constant variables but sees global constants. Correspondence: all ranges |a|,|b|<=3 x steps, all placements of declare/read/write over 19 scope shapes, all 2-3 call sequences over the same gate/subroutine definitions, random control-flow programs. An independent oracle recomputes loop iteration values.",
         ref="DESIGN.md §6/C08",
         note=LANG_NOTE + "Known deviations of the unchanged code that the model reproduces (gate bodies resolve free names in the caller's innermost scope; global constants invisible in blocks inside subroutines; both arms of a measurement-conditioned if share a scope) are listed in DESIGN.md §8."),
+    "C09": dict(
+        engine="coq-lang",
+        technique="Coq theorems (depth recurrence = longest chain, for every event list; the model's four depth updates are that recurrence) + correspondence of depth() with the model and with the critical path of the reference trace",
+        text="Theorems, for every event list of any length: no chain of operations pairwise-consecutively sharing a qubit or bit is longer than the computed depth, and some chain attains it (per resource and for the circuit maximum); the visitor model's updates for a library-gate group, a barrier statement, a reset and a measurement pair are exactly that recurrence step on the event they stand for (measurement synchronises qubit and target bit). Tie: the model's depth and real depth() are compared exactly on random circuits (basis and library gates, broadcast, custom gates, pow, loops, subroutines, measurement-conditioned blocks); independently the Gallina specification computes the critical path of the reference trace (one step per source-level library-gate application, measurement, reset, barrier statement) and must equal depth(). History independence is exercised by random interleavings of validate/unroll/depth/queries before depth().",
+        ref="DESIGN.md §3.4, §6/C09",
+        note=LANG_NOTE + "The statement 'the event stream of an arbitrary program is one event per source-level operation' is by construction of the model/specification and is tied to the code by the correspondence, not proved as a refinement theorem. History independence across transformations is the module layer's (C16) business; here only non-transforming histories are explored."),
 }
 
 ORDER = ["C%02d" % i for i in range(1, 21)]
